@@ -115,6 +115,17 @@ def sched_stop_model(chk):
         raise vlib.Broken("the decrement-first variant of SchedStop is not rejected: the invariants are vacuous")
 
 
+def mig_proto_model(chk):
+    """Level B: the migration request protocol as coded (C13); the order before fix dbdaa3d is the witness"""
+    d = os.path.join(VERIF, "spec", "core")
+    vlib.tlc_check(chk, "MigProto: store target, set flag / clear flag, read target, move, callback as coded, exhaustive (2 requesters)",
+                   os.path.join(d, "MigProto.tla"), os.path.join(d, "MigProtoMC.cfg"), timeout=300)
+    r = vlib.tlc_check(chk, "MigProto clearing the flag after the move (defect S3; must be violated)", os.path.join(d, "MigProto.tla"),
+                       os.path.join(d, "MigProtoClearLate.cfg"), timeout=300, expect="violation")
+    if not r["violated"]:
+        raise vlib.Broken("the clear-late variant of MigProto is not rejected: the invariant is vacuous")
+
+
 def join_proto_model(chk):
     """Level B: the join hand-shake (REQ_JOIN, p_link, TERMINATED) as coded (C03)"""
     d = os.path.join(VERIF, "spec", "core")
